@@ -400,9 +400,12 @@ void PropertyHDF5::values(const std::vector<Variant> &values) {
         return;
     }
     DataSet dset = dataset();
-    DataType dt = values[0].type();
-    if (dt != data_type_from_h5(dset.dataType())) {
-        throw std::invalid_argument("Inconsistent DataTypes!");
+    DataType dt = data_type_from_h5(dset.dataType());
+    // every value has to be of the property's type: check before the dataset is touched
+    for (const Variant &value : values) {
+        if (value.type() != dt) {
+            throw std::invalid_argument("Inconsistent DataTypes!");
+        }
     }
     dset.setExtent(NDSize{values.size()});
 
